@@ -13,15 +13,16 @@ CONSTANTS Peers, Streams, MaxTime, Timeout, MaxIdle, MaxSess, HolderKinds
 VARIABLES st, now, nextId, hist
 vars == <<st, now, nextId, hist>>
 
-Init == st = InitSess(Timeout, MaxIdle) /\ now = 0 /\ nextId = 1 /\ hist = << >>
+Init == st = [InitSess(Timeout, MaxIdle) EXCEPT !.streamPeers = Streams] /\ now = 0 /\ nextId = 1 /\ hist = << >>
 
 Free(s0, s) == [Del_do(s0, s) EXCEPT !.objs = @ \ {s}]
 Rx(p) ==
   /\ IF p \in DOMAIN st.map
      THEN st.map[p] \notin st.closed /\ st' = Touch_do(st, st.map[p], now) /\ UNCHANGED <<nextId, hist>>      \* nothing arrives on a closed connection
      ELSE /\ nextId <= MaxSess
-          /\ LET evict == st.maxidle > 0 /\ Cardinality(IdleSet(st)) >= st.maxidle
-                 victim == CHOOSE v \in IdleSet(st) : OldestIdle(st, v)
+          /\ LET idle == {x \in IdleSet(st) : (st.peer[x] \in Streams) = (p \in Streams)}     \* the idle sessions of the endpoint p talks to
+                 evict == st.maxidle > 0 /\ Cardinality(idle) >= st.maxidle
+                 victim == CHOOSE v \in idle : OldestIdle(st, v)
                  s1 == IF evict THEN Free(st, victim) ELSE st
                  s2 == [s1 EXCEPT !.objs = @ \cup {nextId}]
              IN /\ (evict => Del_ok(st, victim, now))
